@@ -303,6 +303,19 @@ pub fn hyphen_configs() -> Vec<Conv> {
         s.args.push(ArgSpec::flag("x", Some('x'), None));
         c.subs.push(s);
     }));
+    push("posorder:allow_missing_positional+sub", {
+        let mut c = CmdSpec::new("prog");
+        c.set(Setting::AllowMissingPositional);
+        c.args.push(ArgSpec::flag("a", Some('a'), Some("alpha")));
+        c.args.push(ArgSpec::pos("f", 1));
+        let mut s2 = ArgSpec::pos("s", 2);
+        s2.required = true;
+        c.args.push(s2);
+        let mut s = CmdSpec::new("sub");
+        s.args.push(ArgSpec::flag("x", Some('x'), None));
+        c.subs.push(s);
+        c
+    });
     out
 }
 
